@@ -46,6 +46,14 @@ const PROBES: &[&str] = &[
     "stel x = 1; v0;",
     "lengte(v1);",
     "print(\"{}\", v0);",
+    // texts that fail in the lexer / parser (an error slot or partial state kept there would show later)
+    "stel = 1",
+    "(1 + ",
+    "[1, 2",
+    "stel v0 = \"open",
+    "als { }",
+    "stel één = 1; één + 1",
+    "v0 v1 )",
 ];
 
 /// The batch: generated programs over one small shared identifier pool, probe programs that use a
